@@ -304,7 +304,7 @@ def cells(tier):
             continue            # UNTIL is rendered from a datetime computed at run time: covered by the options cell
         for sp in (SPELLINGS[:1] if q and si % 3 else (SPELLINGS[:3] if q else SPELLINGS)):
             cs.append(Cell(M, "h_roundtrip", dict(si=si, spelling=sp), name="rt[%s|%s]" % (c01._shape_key(c01.shapes("thorough")[si]), _skey(sp)),
-                           budget_s=120 if q else 600, max_violations=20))
+                           budget_s=300 if q else 900, max_violations=20))
     return cs
 
 
